@@ -18,7 +18,7 @@ RULE = ("twin runs: the same pushes with and without interleaved reserve_items /
 
 def twin_reserve(cat, rng, stack):
     b = RB(ID, cat, rng, stack)
-    b.idx_cmp = "idx"
+    b.idx_cmp = "status"   # index values are opaque here: equality is checked between the two real regions
     b.new("a")   # with reservations
     b.new("t")   # twin without
     b.new("o")
@@ -61,7 +61,7 @@ def prehistory_reserve_only(b, name, rng):
 
 def merged(cat, rng, stack):
     b = RB(ID, cat, rng, stack)
-    b.idx_cmp = "idx"
+    b.idx_cmp = "status"   # index values are opaque here: equality is checked between the two real regions
     srcs = []
     for k in range(rng.below(4)):
         n = "s%d" % k
@@ -120,7 +120,7 @@ def finish(b, rng, name):
 
 def withcap(cat, rng, stack):
     b = RB(ID, cat, rng, stack)
-    b.idx_cmp = "idx"
+    b.idx_cmp = "status"   # index values are opaque here: equality is checked between the two real regions
     b.new("a")
     b.new("t")
     b.raw("x a swithcap %d" % rng.below(100), ("eq", "ok"), shape="withcap")
